@@ -34,11 +34,12 @@ Dash(f) == [f EXCEPT !.tagged = TRUE, !.dash = TRUE]
 Anon(name, v) == [F(name, v) EXCEPT !.anon = TRUE]
 
 \* float64 values, named by the literal encoding/json prints for them
-GoFloats == { <<48>>, <<49,46,53>>, <<49,101,43,50,49>>, <<49,101,45,48,55>>, <<49,48,48>>, <<45,48>>, <<48,46,49>> }
-\*              0       1.5          1e+21                 1e-07                 100        -0        0.1
+\* (exponent form below 1e-6 and from 1e21; a one-digit negative exponent is written without the leading zero: 1e-7, not 1e-07)
+GoFloats == { <<48>>, <<49,46,53>>, <<49,101,43,50,49>>, <<49,101,45,55>>, <<49,101,45,49,48>>, <<49,48,48>>, <<45,48>>, <<48,46,49>> }
+\*              0       1.5          1e+21                 1e-7             1e-10                100        -0        0.1
 
 nA == <<65>>  nB == <<66>>  nC == <<67>>  nx == <<120>>  nAb == <<65, 98>>
-Scalars == { Nil, B(TRUE), B(FALSE), I(0), I(7), I(-12), Fl(<<49,46,53>>), Fl(<<48>>), Fl(<<49,101,43,50,49>>),
+Scalars == { Nil, B(TRUE), B(FALSE), I(0), I(7), I(-12), Fl(<<49,46,53>>), Fl(<<48>>), Fl(<<49,101,43,50,49>>), Fl(<<49,101,45,55>>), Fl(<<50,46,53,101,45,49,48>>), Fl(<<45,48>>),
              S(<<>>), S(<<97>>), S(<<60, 38, 62>>), S(<<34, 92, 10, 1>>), S(<<195, 169, 226, 128, 168>>),
              S(<<255, 97>>), S(<<226, 130>>), S(<<240, 159, 152, 128>>) }
 Containers(E) ==
@@ -51,7 +52,8 @@ Structs(E) ==
      { St(<<F(nA, x), F(nB, I(7))>>) : x \in E }
   \cup { St(<<Tn(F(nA, x), <<110>>), F(nx, I(1)), Dash(F(nB, I(7)))>>) : x \in E }                     \* renamed, unexported, "-"
   \cup { St(<<Om(F(nA, x)), Om(Tn(F(nB, y), <<98>>))>>) : x \in E, y \in {I(0), I(7), S(<<>>), NilP(I(0)), P(I(0))} }   \* omitempty
-  \cup { St(<<Qs(F(nA, x)), F(nC, B(TRUE))>>) : x \in {B(TRUE), I(-12), Fl(<<49,46,53>>), S(<<97>>), S(<<60>>), Sl(<<>>)} }   \* ,string
+  \cup { St(<<Qs(F(nA, x)), F(nC, B(TRUE))>>) : x \in {B(TRUE), I(-12), Fl(<<49,46,53>>), Fl(<<49,101,45,55>>), Fl(<<49,101,43,50,49>>), Fl(<<50,46,53,101,45,49,48>>),
+                                                            S(<<97>>), S(<<60>>), Sl(<<>>), P(Fl(<<49,101,45,55>>))} }   \* ,string
   \cup { St(<<F(nC, I(1)), Anon(nAb, St(<<F(nA, x), F(nx, I(2))>>)), F(nB, I(3))>>) : x \in {I(7), Nil, S(<<97>>)} }   \* embedded
   \cup { St(<<F(nA, P(St(<<F(nB, x)>>)))>>) : x \in {I(7), NilSl} }
   \cup { St(<<>>) }
